@@ -514,8 +514,9 @@ theorem invalid_successes {W : Type} [Scalar W] (crit : Crit W) (conf : Confiden
 /-- With an external quantile routine that answers finite numbers, no entry point returns `Ok` with
     a NaN bound on `XR`. For the arithmetic mean, the comparisons, the geometric mean and the
     proportion intervals all bounds are in fact finite and `lo ≤ hi` (`XR.FinIv`); for the harmonic
-    mean a bound can be `+∞` (reciprocal of a zero bound) but not NaN; for `quantile::ci` the bounds
-    are data elements and the sort has rejected NaN. -/
+    mean a bound can be `+∞` (a reciprocal-space bound that is not strictly positive is read as
+    `+∞`) but not NaN — and never zero or negative: `harmonic_bounds_positive_XR`; for `quantile::ci`
+    the bounds are data elements and the sort has rejected NaN. -/
 theorem ok_never_nan (crit : Crit XR) (conf : Confidence XR)
     (hc : ∀ r, isFinite (crit r) = true) (i : Interval XR) :
     (∀ a : Arith XR, Arith.ciMean crit a conf = .ok i → XR.FinIv i) ∧
@@ -557,6 +558,35 @@ theorem ok_never_nan (crit : Crit XR) (conf : Confidence XR)
     · exact XR.quantile_ci_ok_noNaN crit conf xs q h
 
 example : ∀ r, isFinite ((fun _ => XR.fin 1.96 : Crit XR) r) = true := fun _ => rfl
+
+/-- Sharper than `ok_never_nan` for the harmonic mean: with finite critical values, every bound of
+    every `Ok` of `Harmonic::ci_mean` / `Harmonic::ci` on `XR` is either `+∞` or a strictly positive
+    finite number (it is `1/r` for a finite reciprocal-space bound `r > 0`, and `+∞` when `r ≤ 0`);
+    in particular it is not NaN, not `−∞`, not zero and not negative — whatever the kind of the
+    confidence. The last three conjuncts spell out `XR.PosIv`. -/
+theorem harmonic_bounds_positive_XR (crit : Crit XR) (conf : Confidence XR)
+    (hc : ∀ r, isFinite (crit r) = true) (i : Interval XR) :
+    (∀ g : Harmonic XR, Harmonic.ciMean crit g conf = .ok i → XR.PosIv i ∧ XR.NoNaN i) ∧
+    (∀ xs : List XR, Harmonic.ci crit conf xs = .ok i → XR.PosIv i ∧ XR.NoNaN i) ∧
+    (∀ lo hi : XR, XR.PosIv (.twoSided lo hi) ↔
+      (lo = .pinf ∨ ∃ r : ℝ, lo = .fin r ∧ 0 < r) ∧ (hi = .pinf ∨ ∃ r : ℝ, hi = .fin r ∧ 0 < r)) ∧
+    (∀ lo : XR, XR.PosIv (.upper lo) ↔ (lo = .pinf ∨ ∃ r : ℝ, lo = .fin r ∧ 0 < r)) ∧
+    (∀ hi : XR, XR.PosIv (.lower hi) ↔ (hi = .pinf ∨ ∃ r : ℝ, hi = .fin r ∧ 0 < r)) := by
+  refine ⟨fun g h => ?_, fun xs h => ?_, fun _ _ => Iff.rfl, fun _ => Iff.rfl, fun _ => Iff.rfl⟩
+  · have := XR.harmonic_ciMean_ok_posIv crit g conf hc h
+    exact ⟨this, this.noNaN⟩
+  · unfold Harmonic.ci at h
+    obtain ⟨g, _, h⟩ := Outcome.bind_eq_ok h
+    have := XR.harmonic_ciMean_ok_posIv crit g conf hc h
+    exact ⟨this, this.noNaN⟩
+
+/-- the hypotheses are satisfiable, and `+∞` does occur: reciprocals `1, 2`, critical value `100`;
+    the reciprocal-space interval `[-97/2, 103/2]` reaches below zero, the harmonic interval is
+    `[2/103, +∞]` -/
+example : (∀ r, isFinite ((fun _ => XR.fin 100 : Crit XR) r) = true) ∧ ∃ r : ℝ, 0 < r ∧
+    Harmonic.ciMean (fun _ => XR.fin 100 : Crit XR) ⟨Examples.r12⟩ (.twoSided (XR.fin 0.95)) =
+      .ok (.twoSided (XR.fin r) XR.pinf) :=
+  ⟨fun _ => rfl, Examples.harmonic_ok_pinf⟩
 
 /-- finiteness of the external answer is needed: were `inverse_cdf` to answer NaN, every state that
     passes the guards would come back as `Ok([NaN, NaN])` (IEEE: `NaN > NaN` is false, so
